@@ -471,7 +471,26 @@ fn rel(p: &str) -> String {
         match c {
             "" | "." => {}
             ".." => {
-                if out.last().map(|l| *l != "..").unwrap_or(false) {
+                // "a/.." is only "" if `a` is a real directory; through a symlinked
+                // directory it is the parent of the link's target, so keep it spelled out
+                let collapsible = out.last().map(|l| *l != "..").unwrap_or(false) && {
+                    let prefix = out.join("/");
+                    match std::ffi::CString::new(prefix) {
+                        Ok(c) => unsafe {
+                            let mut st: libc::stat = std::mem::zeroed();
+                            let r = libc::syscall(
+                                libc::SYS_newfstatat,
+                                libc::AT_FDCWD,
+                                c.as_ptr(),
+                                &mut st as *mut libc::stat,
+                                libc::AT_SYMLINK_NOFOLLOW,
+                            );
+                            r == 0 && (st.st_mode & libc::S_IFMT) != libc::S_IFLNK
+                        },
+                        Err(_) => false,
+                    }
+                };
+                if collapsible {
                     out.pop();
                 } else {
                     out.push("..");
